@@ -129,7 +129,7 @@ def prove(prop):
 
 GEN_SOURCES = ["pyp0f/fingerprint/tcp.py", "pyp0f/net/signatures/tcp.py", "pyp0f/fingerprint/results/uptime.py", "pyp0f/fingerprint/results/tcp.py",
                "pyp0f/net/packet.py", "pyp0f/net/quirks.py", "pyp0f/net/layers/ip.py", "pyp0f/net/layers/tcp/tcp.py", "pyp0f/net/layers/tcp/flags.py",
-               "pyp0f/database/parse/wildcard.py", "pyp0f/fingerprint/mtu.py", "pyp0f/fingerprint/uptime.py", "pyp0f/net/signatures/mtu.py"]
+               "pyp0f/database/parse/wildcard.py", "pyp0f/fingerprint/mtu.py", "pyp0f/fingerprint/uptime.py", "pyp0f/net/signatures/mtu.py", "pyp0f/net/layers/tcp/options.py"]
 GEN_THEOREMS = ["gen_distance_eq", "gen_find_tcp_match_eq", "gen_find_mtu_match_eq", "gen_valid_for_tcp_fingerprint_eq", "gen_valid_for_mtu_fingerprint_eq", "gen_valid_for_uptime_fingerprint_eq", "gen_mtu_from_mss_eq",
                 "gen_mtu_from_mss_reject", "gen_mtu_signatures_match_eq", "gen_divisors_eq", "gen_win_multi_eq", "gen_tcp_signatures_match_eq", "gen_round_frequency_eq", "gen_guess_distance_eq", "gen_should_fingerprint_eq"]
 
